@@ -1,5 +1,7 @@
 from subprops import SUB_TB, SUB_ASSUMPTIONS, su_component
 
+import facts
+
 ID = "C05"
 PROP = {
     "modules": ["Gnmi.Props.C05"],
@@ -23,3 +25,6 @@ PROP = {
         "technique": "Lean 4 proof (fold invariants over the walk and the sender loop of a code-shaped model) + model/implementation correspondence on the real Subscribe server",
     },
 }
+PROP.setdefault("pre", []).append(facts.make_step(['subscribe.once.closeAfterWalk', 'subscribe.poll.spawn', 'subscribe.walk.order', 'subscribe.sender.loop']))
+PROP["modules"].append("Gnmi.Props.C05L")
+PROP["theorems"] += ["Gnmi.C05L." + t for t in ["once_concurrent", "once_ends_ok", "poll_first_round", "poll_rounds", "poll_trigger_enabled", "poll_eof_ok", "onceInv_reach"]]
